@@ -11,6 +11,8 @@
   same outcome as without one, never a panic, what is written is the escaping of the NORMALISED string (markup
   characters the normalizer produces are escaped), and — under exactly stated side conditions — the output is the
   output for the normalised tree without a normalizer.
+  Part 4 (`C19_write_nopanic_any_writer`, `C19_write_fails_with_io`, `C19_write_error_priority`): `serialize_write`
+  in front of a writer that refuses a `write_all` call — `Error::Io`, never a panic.
   Defect kept visible: `C19_xhtml_const_defect` (so "XHTML_NS" below is the namespace the crate's
   constant names, the `https` spelling: the partial form of the property).
 -/
@@ -25,6 +27,7 @@ import XotModel.Lemmas.Html5Decode
 import XotModel.Lemmas.Html5Pretty
 import XotModel.Lemmas.Html5PrettyWhere
 import XotModel.Lemmas.NormalizerFullwidth
+import XotModel.Lemmas.WriterHtml
 
 namespace XotModel.Props
 open XotModel XotModel.Gen
@@ -796,5 +799,160 @@ theorem C19_normalizer_write (N : Str → Str) (env : Env) (p : HtmlParams) (t :
       | panic => simp
 
 example : serializeHtmlWriteN fullwidthNorm witnessEnv {} c19NormDoc [] = (c19NormText, .ok ()) := by decide
+
+/-! ## Part 4: a writer that fails
+
+`serializeHtmlWriteNW P N` (Model/Normalizer.lean; `serializeHtmlWriteW P` without normalizer, Model/Html5.lean) is
+`Html5::serialize_write_with_normalizer` in front of ANY writer `P` (`WriterPolicy`, Model/Writer.lean: what the
+writer answers to each `write_all` call given the calls it accepted so far), threaded through the calls in the order
+the Rust makes them — the doctype, then per event indentation / token space / token text / newline, each one
+`w.write_all(..)?`.  `serializeHtmlCallsN` lists those calls as they happen when none is refused.  The model of
+Parts 1–3 (`serializeHtmlWrite`, `serializeHtmlWriteN`) is the writer that never fails. -/
+
+/-- The never-failing model is the unlimited-budget instance, and `N = id` is the entry point without normalizer. -/
+theorem C19_write_unlimited (N : Str → Str) (env : Env) (p : HtmlParams) (t : Tree) (start : Path) :
+    serializeHtmlWriteNW WriterPolicy.unlimited N env p t start = serializeHtmlWriteN N env p t start ∧
+    serializeHtmlWriteNW (WriterPolicy.budget none) N env p t start = serializeHtmlWriteN N env p t start ∧
+    serializeHtmlWriteW WriterPolicy.unlimited env p t start = serializeHtmlWrite env p t start ∧
+    (∀ P, serializeHtmlWriteNW P id env p t start = serializeHtmlWriteW P env p t start) :=
+  ⟨serializeHtmlWriteNW_unlimited N env p t start, serializeHtmlWriteNW_unlimited N env p t start,
+   serializeHtmlWriteW_unlimited env p t start, fun P => serializeHtmlWriteNW_id P env p t start⟩
+
+/-- **`serialize_write` never panics whatever the writer does**: any writer, any normalizer, any tree, start path,
+    vocabulary and parameter set. -/
+theorem C19_write_nopanic_any_writer (P : WriterPolicy) (N : Str → Str) (env : Env) (p : HtmlParams) (t : Tree)
+    (start : Path) :
+    (serializeHtmlWriteNW P N env p t start).2 ≠ .panic ∧ (serializeHtmlWriteW P env p t start).2 ≠ .panic := by
+  have key : ∀ N, (serializeHtmlWriteNW P N env p t start).2 ≠ .panic := by
+    intro N h
+    rw [serializeHtmlWriteNW_eq_replayCalls] at h
+    have h2 := replayCalls_panic P [] _ h
+    have h3 : (serializeHtmlCallsN N env p t start).2 = (serializeHtmlWriteN N env p t start).2 :=
+      congrArg Prod.snd (serializeHtmlCallsN_eq N env p t start)
+    rw [h3, serializeHtmlWriteN_outcome] at h2
+    exact C19_nopanic_write env p t start h2
+  refine ⟨key N, ?_⟩
+  rw [← serializeHtmlWriteNW_id]
+  exact key id
+
+/-- **A failing writer gives `Error::Io`.**  For every writer and normalizer:
+    (1) either the writer refuses one of the calls — the call returns `Err(Io)`, the writer holding what it had
+        accepted — or it accepts them all and the result is that of the never-failing writer;
+    (2) what the writer holds when the call returns is a PREFIX of what the never-failing writer receives, in
+        particular of the string `serialize_string_with_normalizer` returns;
+    (3) unless the call ends in `Io`, what was written starts with the doctype;
+    (4) `FailingWriter { fail_at_call: k }`: enough budget gives the old result; less gives `Io` with exactly the
+        first `k` calls held; `k = 0` refuses the doctype itself. -/
+theorem C19_write_fails_with_io (P : WriterPolicy) (N : Str → Str) (env : Env) (p : HtmlParams) (t : Tree)
+    (start : Path) :
+    ((∃ b, writeCalls P [] (serializeHtmlCallsN N env p t start).1 = .error b ∧
+          serializeHtmlWriteNW P N env p t start = (b, .err .io)) ∨
+      (writeCalls P [] (serializeHtmlCallsN N env p t start).1 = .ok (serializeHtmlCallsN N env p t start).1 ∧
+          serializeHtmlWriteNW P N env p t start = serializeHtmlWriteN N env p t start)) ∧
+    (∃ rest, (serializeHtmlWriteN N env p t start).1 = (serializeHtmlWriteNW P N env p t start).1 ++ rest) ∧
+    (∀ s, serializeHtmlStringN N env p t start = .ok s →
+        ∃ rest, s = (serializeHtmlWriteNW P N env p t start).1 ++ rest) ∧
+    ((serializeHtmlWriteNW P N env p t start).2 ≠ .err .io →
+        ∃ body, (serializeHtmlWriteNW P N env p t start).1 = htmlDoctype ++ body) ∧
+    (∀ k, (serializeHtmlCallsN N env p t start).1.length ≤ k →
+        serializeHtmlWriteNW (WriterPolicy.budget (some k)) N env p t start = serializeHtmlWriteN N env p t start) ∧
+    (∀ k, k < (serializeHtmlCallsN N env p t start).1.length →
+        serializeHtmlWriteNW (WriterPolicy.budget (some k)) N env p t start
+          = (((serializeHtmlCallsN N env p t start).1.take k).flatten, .err .io)) ∧
+    serializeHtmlWriteNW (WriterPolicy.budget (some 0)) N env p t start = ([], .err .io) := by
+  have hcalls := serializeHtmlCallsN_eq N env p t start
+  have h1 : (serializeHtmlCallsN N env p t start).1.flatten = (serializeHtmlWriteN N env p t start).1 :=
+    congrArg Prod.fst hcalls
+  have hpre : ∃ rest, (serializeHtmlWriteN N env p t start).1 = (serializeHtmlWriteNW P N env p t start).1 ++ rest := by
+    obtain ⟨rest, h⟩ := replayCalls_prefix P [] (serializeHtmlCallsN N env p t start)
+    rw [← serializeHtmlWriteNW_eq_replayCalls, List.nil_append, h1] at h
+    exact ⟨rest, h⟩
+  have hdich : (∃ b, writeCalls P [] (serializeHtmlCallsN N env p t start).1 = .error b ∧
+          serializeHtmlWriteNW P N env p t start = (b, .err .io)) ∨
+      (writeCalls P [] (serializeHtmlCallsN N env p t start).1 = .ok (serializeHtmlCallsN N env p t start).1 ∧
+          serializeHtmlWriteNW P N env p t start = serializeHtmlWriteN N env p t start) := by
+    rw [serializeHtmlWriteNW_eq_replayCalls]
+    unfold replayCalls
+    cases hw : writeCalls P [] (serializeHtmlCallsN N env p t start).1 with
+    | error b => exact Or.inl ⟨b, rfl, rfl⟩
+    | ok h =>
+      have hh := writeCalls_ok P _ _ _ hw
+      rw [List.nil_append] at hh
+      subst hh
+      exact Or.inr ⟨rfl, hcalls⟩
+  have hlen : 0 < (serializeHtmlCallsN N env p t start).1.length := by
+    unfold serializeHtmlCallsN; simp
+  refine ⟨hdich, hpre, ?_, ?_, ?_, ?_, ?_⟩
+  · intro s hs
+    have hw := (C19_normalizer_write N env p t start).2.1 s hs
+    obtain ⟨rest, h⟩ := hpre
+    rw [hw] at h
+    exact ⟨rest, h⟩
+  · intro hne
+    rcases hdich with ⟨b, _, hb⟩ | ⟨_, hall⟩
+    · rw [hb] at hne; exact absurd rfl hne
+    · rw [hall]; exact ⟨_, rfl⟩
+  · intro k hk
+    rw [serializeHtmlWriteNW_eq_replayCalls, replayCalls_budget, if_pos hk]
+    exact hcalls
+  · intro k hk
+    rw [serializeHtmlWriteNW_eq_replayCalls, replayCalls_budget, if_neg (by omega)]
+  · rw [serializeHtmlWriteNW_eq_replayCalls, replayCalls_budget, if_neg (by omega)]
+    simp
+
+/-- **Which error wins** when the serialisation itself fails (`ProcessingInstructionGtInHtml`, `MissingPrefix`,
+    `NamespaceInProcessingInstruction`): whichever comes first in the event order.  The error `e` of the string entry
+    point arises after exactly the calls `serializeHtmlCallsN.1` — the doctype first, so at least one; a writer that
+    accepts all of them sees `e` reported as the string entry point reports it, a writer that refuses one of them
+    makes the call return `Io`. -/
+theorem C19_write_error_priority (P : WriterPolicy) (N : Str → Str) (env : Env) (p : HtmlParams) (t : Tree)
+    (start : Path) (e : XotError) (he : serializeHtmlStringN N env p t start = .err e) :
+    (writeCalls P [] (serializeHtmlCallsN N env p t start).1 = .ok (serializeHtmlCallsN N env p t start).1 →
+        serializeHtmlWriteNW P N env p t start = ((serializeHtmlCallsN N env p t start).1.flatten, .err e)) ∧
+    (∀ b, writeCalls P [] (serializeHtmlCallsN N env p t start).1 = .error b →
+        serializeHtmlWriteNW P N env p t start = (b, .err .io)) ∧
+    (∀ k, (serializeHtmlCallsN N env p t start).1.length ≤ k →
+        (serializeHtmlWriteNW (WriterPolicy.budget (some k)) N env p t start).2 = .err e) ∧
+    (∀ k, k < (serializeHtmlCallsN N env p t start).1.length →
+        (serializeHtmlWriteNW (WriterPolicy.budget (some k)) N env p t start).2 = .err .io) := by
+  have he' : (serializeHtmlWriteN N env p t start).2 = .err e := ((C19_normalizer_write N env p t start).2.2.1 e).2 he
+  have h2 : (serializeHtmlCallsN N env p t start).2 = .err e := by
+    rw [← he']; exact congrArg Prod.snd (serializeHtmlCallsN_eq N env p t start)
+  refine ⟨?_, ?_, ?_, ?_⟩
+  · intro hw
+    rw [serializeHtmlWriteNW_eq_replayCalls]
+    simp only [replayCalls, hw, h2]
+  · intro b hw
+    rw [serializeHtmlWriteNW_eq_replayCalls]
+    simp only [replayCalls, hw]
+  · intro k hk
+    rw [(C19_write_fails_with_io (WriterPolicy.budget (some k)) N env p t start).2.2.2.2.1 k hk, he']
+  · intro k hk
+    rw [(C19_write_fails_with_io (WriterPolicy.budget (some k)) N env p t start).2.2.2.2.2.1 k hk]
+
+/-- Non-vacuity: `<?pi a>b?>` in a document.  The calls before `ProcessingInstructionGtInHtml` arises are the doctype
+    alone: the writer that refuses its first call gives `Io`, every other one the serialisation error. -/
+example :
+    let env : Env := ⟨[[], xmlNs], [[], ['x','m','l']], [(['s','p','a','c','e'], 1), (['i','d'], 1), (['p','i'], 0)]⟩
+    let t : Tree := .node .document [.node (.pi 2 (some ['a','>','b'])) []]
+    (serializeHtmlCalls env {} t []).1 = [htmlDoctype] ∧
+    serializeHtmlWriteW (.budget (some 0)) env {} t [] = ([], .err .io) ∧
+    serializeHtmlWriteW (.budget (some 1)) env {} t [] = (htmlDoctype, .err .processingInstructionGtInHtml) ∧
+    serializeHtmlWriteW (.budget none) env {} t [] = (htmlDoctype, .err .processingInstructionGtInHtml) := by decide
+
+/-- `<div><p>a</p></div>` with indentation: the calls (the third is the empty token of the inherited `xml` prefix
+    event of the top element: the call is made all the same), a writer that fails in the middle, and one with
+    enough budget. -/
+example :
+    let env : Env := ⟨[[], xmlNs], [[], ['x','m','l']],
+       [(['s','p','a','c','e'], 1), (['i','d'], 1), (['d','i','v'], 0), (['p'], 0)]⟩
+    let t : Tree := .node (.element 2) [.node (.element 3) [.node (.text ['a']) []]]
+    let p : HtmlParams := ⟨some [], []⟩
+    (serializeHtmlCalls env p t []).1.map String.ofList
+      = ["<!DOCTYPE html>", "<div", "", ">", "\n", "  ", "<p", ">", "a", "</p>", "\n", "</div>", "\n"] ∧
+    (fun r : Str × Outcome XotError Unit => (String.ofList r.1, r.2)) (serializeHtmlWriteW (.budget (some 6)) env p t [])
+      = ("<!DOCTYPE html><div>\n  ", .err .io) ∧
+    (fun r : Str × Outcome XotError Unit => (String.ofList r.1, r.2)) (serializeHtmlWriteW (.budget (some 13)) env p t [])
+      = ("<!DOCTYPE html><div>\n  <p>a</p>\n</div>\n", .ok ()) := by decide
 
 end XotModel.Props
